@@ -124,3 +124,14 @@ package verifspec
 //@   requires high >= -4503599627370496 && high <= 4503599627370496
 //@   ensures this.$high >= 0 && this.$high <= 4294967295 && this.$low >= 0 && this.$low <= 4294967295
 //@   ensures (this.$high*4294967296 + this.$low - (high*4294967296 + trunc(low))) % 18446744073709551616 == 0
+
+// $flatten64 as used for 64-bit shift counts (mode bv): only "is it below the operand width" is observed.  For
+// $high == 0 the result is $low exactly; otherwise it is at least 2^32 (IEEE rounding is monotone, so the rounded sum
+// cannot fall below the exactly representable 2^32).  Not provable from the exactness discipline of J0, hence trusted.
+//@ js numeric.js $flatten64 count
+//@ property C06
+//@   mode bv
+//@   trusted monotonicity of IEEE-754 rounding: high*2^32 + low >= 2^32 whenever high >= 1
+//@   param x: u64
+//@   returns nat
+//@   ensures (x.$high == 0 ==> result == x.$low) && (x.$high != 0 ==> result >= 4294967296)
